@@ -58,6 +58,9 @@ func random(size int, charset []rune) string {
 	// Calculate the number of bits required to represent the charset,
 	// e.g., for 62 characters, it would need 6 bits (since 62 -> 64 = 2^6)
 	letterIdBits := int(math.Log2(float64(nearestPowerOfTwo(len(charset)))))
+	if letterIdBits == 0 {
+		letterIdBits = 1 // a one-rune charset: 63 / letterIdBits below must not divide by zero
+	}
 	// Determine the corresponding bitmask,
 	// e.g., for 62 characters, the bitmask would be 111111.
 	var letterIdMask int64 = 1<<letterIdBits - 1
